@@ -10,6 +10,8 @@
 //   schur_pattern : pmask_pattern strings through the property-tree constructor (run under timeout)
 //   cpr     : preconditioner::cpr<recording exact PPrecond, SPrecond (dummy | spai0)> on scalar input
 //             with block_size b and on b x b block-valued input
+//   cprdrs  : preconditioner::cpr_drs (dynamic row sum weights; eps_dd, eps_ps and the weights
+//             are dyadic rationals, exactly representable as the doubles of the parameters)
 //   deflate : deflated_solver::project / full solve
 #include "vq_io.hpp"
 #include <amgcl/adapter/crs_tuple.hpp>
@@ -26,6 +28,7 @@
 #include <amgcl/relaxation/spai0.hpp>
 #include <amgcl/preconditioner/dummy.hpp>
 #include <amgcl/preconditioner/cpr.hpp>
+#include <amgcl/preconditioner/cpr_drs.hpp>
 #include <amgcl/preconditioner/schur_pressure_correction.hpp>
 using vq::Q; using vq::Tok; using vq::show;
 namespace be = amgcl::backend;
@@ -126,7 +129,14 @@ class rec_exact_precond {
     friend std::ostream& operator<<(std::ostream &os, const rec_exact_precond&) { return os << "recording exact preconditioner"; }
   private:
     std::shared_ptr<build_matrix> A;
-    void init(std::shared_ptr<build_matrix> M) { A = M; g_recorded = vq::show_crs(*A, true); }
+    // a pressure matrix with a column index outside [0, ncols) is ill-formed: any real
+    // preconditioner would read out of bounds; reported as an exception instead
+    void init(std::shared_ptr<build_matrix> M) {
+        A = M; g_recorded = vq::show_crs(*A, true);
+        for (size_t i = 0; i < A->nrows; ++i) for (ptrdiff_t j = A->ptr[i]; j < A->ptr[i + 1]; ++j)
+            if (A->col[j] < 0 || (size_t)A->col[j] >= A->ncols || A->nrows != A->ncols)
+                throw std::runtime_error("pressure matrix column out of range");
+    }
 };
 
 typedef amgcl::amg<B, amgcl::coarsening::aggregation, amgcl::relaxation::damped_jacobi> Amg1;
@@ -225,6 +235,47 @@ static std::string cpr_body(Tok &t) {
     throw std::invalid_argument("kind");
 }
 VQ_OP(cpr) { try { return cpr_body(t); } catch (const std::exception &e) { return "EXC " + vq::exc_kind(e) + " " + slug(e); } }
+
+// ---------------------------------------------------------------- CPR-DRS
+template <int bs> static std::string cprdrs_block(Arrays &a, long active, double eps_dd, double eps_ps, const std::vector<double> &w) {
+    typedef amgcl::static_matrix<Q, bs, bs> BT; typedef be::builtin<BT> BB; typedef amgcl::static_matrix<Q, bs, 1> RT;
+    typedef amgcl::preconditioner::cpr_drs< rec_exact_precond<B>, amgcl::preconditioner::dummy<BB> > P;
+    auto A = std::tie(a.n, a.ptr, a.col, a.val);
+    typename P::params prm; prm.active_rows = active / bs; prm.eps_dd = eps_dd; prm.eps_ps = eps_ps; prm.weights = w;
+    P p(amgcl::adapter::block_matrix<BT>(A), prm);
+    std::ostringstream os; long n = a.n; os << "{" << n << " " << n;
+    for (long i = 0; i < n; ++i) {
+        std::vector<Q> e(n, Q(0)), x(n, Q(0)); e[i] = Q(1);
+        auto E = be::reinterpret_as_rhs<RT>(e); auto X = be::reinterpret_as_rhs<RT>(x);
+        p.apply(E, X);
+        os << " |"; for (long j = 0; j < n; ++j) os << " " << j << ":" << x[j].str();
+    }
+    os << "}"; return os.str() + " " + g_recorded;
+}
+static std::string cprdrs_body(Tok &t) {
+    std::string kind = t.s(); long bs = t.i(), active = t.i();
+    double eps_dd = (double)t.q(), eps_ps = (double)t.q();
+    std::vector<Q> wq = t.vec(); std::vector<double> w; for (auto &x : wq) w.push_back((double)x);
+    Arrays a(t);
+    auto A = std::tie(a.n, a.ptr, a.col, a.val);
+    g_recorded.clear();
+    typedef amgcl::preconditioner::cpr_drs< rec_exact_precond<B>, amgcl::preconditioner::dummy<B> > P;
+    P::params prm; prm.block_size = bs; prm.active_rows = active; prm.eps_dd = eps_dd; prm.eps_ps = eps_ps; prm.weights = w;
+    if (kind == "scalar") { P p(A, prm); return dense_apply(p, a.n) + " " + g_recorded; }
+    if (kind == "block") {
+        if (bs == 2) return cprdrs_block<2>(a, active, eps_dd, eps_ps, w);
+        if (bs == 3) return cprdrs_block<3>(a, active, eps_dd, eps_ps, w);
+        throw std::invalid_argument("block size");
+    }
+    if (kind == "update") {
+        P p(A, prm); std::string before = dense_apply(p, a.n);
+        p.partial_update(A, true);
+        std::string after = dense_apply(p, a.n);
+        return (before == after ? std::string("same ") : std::string("changed ")) + after;
+    }
+    throw std::invalid_argument("kind");
+}
+VQ_OP(cprdrs) { try { return cprdrs_body(t); } catch (const std::exception &e) { return "EXC " + vq::exc_kind(e) + " " + slug(e); } }
 
 // ---------------------------------------------------------------- deflated solver
 static std::string deflate_body(Tok &t) {
